@@ -239,7 +239,7 @@ def replay(prop, payload):
         for h in hs:
             for s in h.steps:
                 print("  %s -> %s | %s | cmp=%d" % (s.op, s.res, " | ".join(s.conts), s.cmp))
-            fs = [f for f in h.failures() if f[1] in OWNED.get(prop, {prop})]
+            fs = [f for f in h.failures() if f[1] in OWNED.get(prop, {prop}) or f[1] == "CRASH" or (prop == "C09" and any(s.res.startswith("threw") for s in h.steps))]
             if fs:
                 for f in fs[:5]:
                     print("  FAIL step=%s %s: %s" % f)
